@@ -25,7 +25,7 @@ import ast
 from sa import AnalysisError
 from sa.db import unparse, own_nodes
 from sa.lin import Lin, ge, le, eq
-from sa.sym import Engine, Hooks, Num, Con, Tup, Obj, Unk, Ref, vkey, assume, State, NONE
+from sa.sym import Engine, Hooks, Num, Con, Tup, Obj, Unk, Ref, Str, vkey, assume, State, NONE
 from rules import decmodel
 from rules.decmodel import num_of
 
@@ -553,7 +553,8 @@ def check_capacity(ctx, rep, m):
     check_atom_postcondition(ctx, rep, "V7")
 
     # bond order of an atom symbol comes from smiles_to_bond(<bond-prefix group>)
-    NC = ctx.fn("selfies.grammar_rules._process_atom_selfies_no_cache")
+    from rules.symlang import atom_parser, atom_pattern_name
+    NC = atom_parser(ctx)
     s2b = ctx.fn("selfies.utils.smiles_utils.smiles_to_bond")
 
     class H3(Hooks):
@@ -575,7 +576,7 @@ def check_capacity(ctx, rep, m):
         # must be item 0 of the groups() of the atom pattern match
         first_group = argk and argk[0] == "unk" and isinstance(argk[1], tuple) and (
             (argk[1][0] == "item" and argk[1][2] == 0) or
-            (argk[1][0] == "group" and argk[1][2] == 1 and "SELFIES_ATOM_PATTERN" in repr(argk[1][1])))
+            (argk[1][0] == "group" and argk[1][2] == 1 and atom_pattern_name(ctx)[1] in repr(argk[1][1])))
         if not first_group:
             probs.append("bond order is not derived from the first pattern group")
         else:
@@ -778,6 +779,16 @@ class RingLabelHooks(Hooks):
             for v in args:
                 if isinstance(v, Con) and v.value == "%":
                     self.label_appends.append((node, v, st, True))
+                elif isinstance(v, Str) and self.label_term is not None:
+                    # one emitted string that ends in the label:  <bond char> ["%"] str(label)
+                    parts = list(v.parts)
+                    for i_, p_ in enumerate(parts):
+                        if p_[0] == "sym" and isinstance(p_[1], tuple) and p_[1][0] == "str" \
+                                and any(k == ("num", Lin.var(self.label_term).key()) for k in p_[1][1]):
+                            pct = i_ > 0 and parts[i_ - 1][0] == "lit" and parts[i_ - 1][1].endswith("%")
+                            L = Lin.var(self.label_term)
+                            if pct or not st.entails(ge(L, 10)):
+                                self.label_appends.append((node, v, st, pct))
                 elif isinstance(v, Unk) and isinstance(v.term, tuple) and v.term[0] == "str" and self.label_term is not None \
                         and any(k == ("num", Lin.var(self.label_term).key()) for k in v.term[1]) \
                         and not (isinstance(callee, tuple) and callee[0] == "ext" and callee[1].endswith("str")):
